@@ -153,12 +153,16 @@ class SymBool(_Sym):
 # ----------------------------------------------------------------------------------------
 def _cmp(op):
     def f(self, o):
+        if isinstance(o, float) and o in (math.inf, -math.inf):
+            # every finite value compares with +-inf like 0.0 does
+            return bool(op(z3.RealVal(0), z3.RealVal(1 if o > 0 else -1)) is not None and z3.is_true(z3.simplify(op(z3.RealVal(0), z3.RealVal(1 if o > 0 else -1)))))
         a, b = self._coerce(o)
         if a is None: return NotImplemented
         return _mkbool(z3.simplify(op(a, b)))
     return f
 
 def _rcmp_ne(self, o):
+    if isinstance(o, float) and o in (math.inf, -math.inf): return True
     a, b = self._coerce(o)
     if a is None: return NotImplemented
     return _mkbool(z3.simplify(a != b))
